@@ -8,6 +8,7 @@ import (
 	"sort"
 	"strings"
 	"sync"
+	"sync/atomic"
 
 	"github.com/google/jsonschema-go/jsonschema"
 
@@ -31,6 +32,8 @@ const c13Schema = `{"$id":"http://h/root.json","type":"object","required":["k"],
   "num":{"$id":"num.json","$defs":{"e":{"$dynamicAnchor":"T","type":"integer"}},"properties":{"n":{"$ref":"list.json"}}},
   "str":{"$id":"str.json","$defs":{"e":{"$dynamicAnchor":"T","type":"string"}},"properties":{"s":{"$ref":"list.json"}}},
   "list":{"$id":"list.json","items":{"$dynamicRef":"#T"},"$defs":{"any":{"$dynamicAnchor":"T"}}}}}`
+
+var freshCounter atomic.Int64
 
 var (
 	schemaCache   = map[string]*jsonschema.Schema{}
@@ -160,6 +163,25 @@ func scenarios() []scenario {
 			return verdict(rs, decode(`{"k":"c"}`))
 		}
 		return []func() string{res, res, func() string { return verdict(old, i) }}, func() string { return digest(s) + digest(i) }
+	}})
+	out = append(out, scenario{"RRP: 2 x Unmarshal+Resolve of schemas whose regular expressions were never compiled before in this process", func() ([]func() string, func() string) {
+		// fresh expressions in every execution: a process-wide cache keyed by the expression stays cold
+		c := freshCounter.Add(1)
+		body := func(k int) func() string {
+			return func() string {
+				text := fmt.Sprintf(`{"type":"object","properties":{"k":{"pattern":"^k%d_%d"}},"patternProperties":{"^x%d_%d":{"type":"integer"},"^y%d_%d$":{"pattern":"z%d"}},"propertyNames":{"pattern":"^[a-z]"}}`, c, k, c, k, c, k, c)
+				var s jsonschema.Schema
+				if err := json.Unmarshal([]byte(text), &s); err != nil {
+					return "unmarshal error"
+				}
+				rs, err := s.Resolve(nil)
+				if err != nil {
+					return "resolve error: " + err.Error()
+				}
+				return verdict(rs, map[string]any{"k": fmt.Sprintf("k%d_%d!", c, k), fmt.Sprintf("x%d_%d", c, k): 1.0}) + verdict(rs, map[string]any{"k": "nope"}) + verdict(rs, map[string]any{fmt.Sprintf("x%d_%dq", c, k): "s"})
+			}
+		}
+		return []func() string{body(1), body(2)}, func() string { return "" }
 	}})
 	out = append(out, scenario{"AD: 2 x ApplyDefaults (distinct instances) + Validate on one Resolved", func() ([]func() string, func() string) {
 		s, rs := mustResolve(defSchema, nil)
